@@ -29,8 +29,8 @@ ASSUMPTIONS = [
     "an empty string written to a workbook cell is read back as an empty cell (None)",
     "depth_m = depth_ft x 0.3048 is compared within 4 ulp",
 ]
-REQUIRED = ["json_exports", "json_integer_header_values", "json_text_curves", "json_nan_header_values", "json_object_curves_with_nan", "json_objects_with_infinities_and_float32", "json_infinite_values", "csv_exports", "csv_records_checked",
-            "excel_exports", "excel_text_curves", "df_roundtrips", "csv_exports_with_numpy_bool_options", "df_objects_with_numeric_looking_text_curve", "df_objects_whose_curves_stack_to_a_string_array", "df_of_empty_object", "df_roundtrips_with_stale_suffixes", "exports_repeated_after_in_place_edits", "depth_unit_cases", "depth_conflict_cases", "depth_unrecognised_cases", "depth_cases_mnemonic_case_lower", "depth_cases_mnemonic_case_preserve"]
+REQUIRED = ["json_exports", "item_json_texts_checked", "json_integer_header_values", "json_text_curves", "json_nan_header_values", "json_object_curves_with_nan", "json_objects_with_infinities_and_float32", "json_infinite_values", "csv_exports", "csv_records_checked",
+            "excel_exports", "excel_text_curves", "df_roundtrips", "csv_exports_with_numpy_bool_options", "df_objects_with_numeric_looking_text_curve", "df_objects_whose_curves_stack_to_a_string_array", "df_of_empty_object", "df_roundtrips_with_stale_suffixes", "exports_repeated_after_in_place_edits", "depth_unit_cases", "depth_conflict_cases", "depth_unrecognised_cases", "depth_cases_without_well_section", "depth_cases_mnemonic_case_lower", "depth_cases_mnemonic_case_preserve"]
 SOFT_DEADLINE = {"quick": 100, "thorough": 1500}
 LEVEL_TEXT = "Exploration with independent readers of every export format as oracles over generated and corpus objects."
 LEVEL_NOTE = "Trusts json/csv/openpyxl/pandas as readers; export options outside the listed sets are not covered."
@@ -57,12 +57,14 @@ def grid(tier):
     for fam, sp in lasio_units.items():
         for u in sp:
             for case_fn in ("upper", "lower", "title"):
-                for where in ("all", "curve_only", "well_only"):
-                    if u.startswith(".") and where == "curve_only":
+                for where in ("all", "curve_only", "well_only", "no_well_section"):
+                    if u.startswith(".") and where in ("curve_only", "no_well_section"):
                         continue      # 'DEPT..1IN' in ~Curves is the documented double-dot ambiguity (C11 known finding), not a unit matter
                     yield {"kind": "depth", "family": fam, "unit": u, "case": case_fn, "where": where}
     for u in ("KM", "IN", "CM", "S", "MS", "", "ftUS", "METROS", "FTS", "1IN", "mm"):
         yield {"kind": "depth", "family": None, "unit": u, "case": "asis", "where": "all"}
+        # a file without a ~Well section: the LASFile's default STRT/STOP/STEP items (unit m) are not in the file
+        yield {"kind": "depth", "family": None, "unit": u, "case": "asis", "where": "no_well_section"}
     for u1, u2 in (("M", "FT"), ("FT", "M"), ("F", "METRES"), ("M", "0.1IN"), ("FEET", "0.1IN"), (".1IN", "M"), ("m", "ft"), ("Ft", "Metres"), ("METER", "F")):
         for cs in ("asis", "lower", "upper"):
             yield {"kind": "depth", "family": "conflict", "unit": u1, "unit2": u2, "case": cs, "where": "conflict"}
@@ -260,6 +262,47 @@ def run_json(case, ctx, las):
             ctx.count("json_object_curves_with_nan")
         if not isinstance(got, list) or len(got) != len(want) or any(not _same(a, b) for a, b in zip(got, want)):
             V("json-curve-samples", "data[%r] = %r, curve holds %r" % (c.mnemonic, (got or [])[:6] if isinstance(got, list) else got, want[:6]), detail)
+    # ---- the json views of the parts: every item, every section (a JSON list of the items' texts) ------------------------------------
+    for name, sec in las.sections.items():
+        if isinstance(sec, str):
+            continue
+        try:
+            inner = _strict(sec.json)
+            docs = [_strict(t) for t in inner]
+        except Exception as e:
+            V("item-json-not-strict", "%s.json (a list of its items' json texts) is not strict JSON throughout: %s" % (name, e), detail)
+            continue
+        items = secops.raw_items(sec)
+        if len(docs) != len(items):
+            V("item-json-count", "%s.json lists %d items, the section holds %d" % (name, len(docs), len(items)), detail)
+            continue
+        for it, dct in zip(items, docs):
+            ctx.count("item_json_texts_checked")
+            try:
+                own = _strict(it.json)
+            except Exception as e:
+                V("item-json-not-strict", "%s[%r].json is not strict JSON: %s" % (name, it.mnemonic, e), detail)
+                continue
+            if own != dct:
+                V("item-json-differs-from-section-json", "%s[%r].json differs from its entry in the section's json" % (name, it.mnemonic), detail)
+            cv = canon.cval(it.value)
+            g = own.get("value", "<absent>")
+            if cv[0] in ("nan", "none") or (cv[0] == "num" and math.isinf(cv[1])):
+                ok = g is None
+            elif cv[0] in ("int", "num"):
+                ok = isinstance(g, (int, float)) and not isinstance(g, bool) and float(g) == float(cv[1])
+            elif cv[0] == "str":
+                ok = g == cv[1]
+            else:
+                ok = True
+            if not ok or own.get("mnemonic") != it.original_mnemonic or own.get("unit") != it.unit or own.get("descr") != it.descr:
+                V("item-json-fields", "%s[%r].json says %r, the item holds (%r, %r, %r, %r)" % (name, it.mnemonic, own, it.original_mnemonic, it.unit, it.value, it.descr), detail)
+            if type(it).__name__ == "CurveItem":
+                data = np.asarray(it.data)
+                want = [None if (isinstance(x, float) and math.isnan(x)) else x for x in data.tolist()]
+                got = own.get("data")
+                if not isinstance(got, list) or len(got) != len(want) or any(not _same(a, b) for a, b in zip(got, want)):
+                    V("item-json-curve-samples", "%s[%r].json data = %r, the curve holds %r" % (name, it.mnemonic, (got or [])[:6] if isinstance(got, list) else got, want[:6]), detail)
     ctx.case_done(["json", hk, ck, case.get("via"), bool(case.get("empty"))], nontrivial(las))
     ctx.sample({"exporter": "json", "header value kinds": hk, "curve dtype kinds": ck, "json head": text[:200]}, limit=2)
 
@@ -491,6 +534,10 @@ def _run_df(case, ctx, las):
         return
     if other.keys() != keys:
         V("df-roundtrip-names", "set_data_from_df(df()) gives curves %r, expected %r" % (other.keys(), keys), detail)
+    elif [c.original_mnemonic for c in list.__iter__(other.curves)] != [c.original_mnemonic for c in list.__iter__(las.curves)]:
+        # the names the curves are written and exported under (two curves RES stay RES, not RES:1 and RES:2)
+        V("df-roundtrip-original-names", "set_data_from_df(df()) leaves original mnemonics %r, they were %r" % (
+            [c.original_mnemonic for c in list.__iter__(other.curves)], [c.original_mnemonic for c in list.__iter__(las.curves)]), detail)
     else:
         for a, b in zip(other.curves, las.curves):
             if not _col_same(a.data, b.data):
@@ -531,12 +578,15 @@ def run_depth(case, ctx):
     u = {"upper": u.upper(), "lower": u.lower(), "title": u.title(), "asis": u}[case["case"]]
     where = case["where"]
     wu = u if where in ("all", "well_only") else ""
-    cu = u if where in ("all", "curve_only") else ""
+    cu = u if where in ("all", "curve_only", "no_well_section") else ""
     if where == "conflict":
         f = {"upper": str.upper, "lower": str.lower, "title": str.title, "asis": str}[case["case"]]
         wu, cu = f(case["unit"]), f(case["unit2"])
     text = ("~Version\nVERS. 2.0 : v\nWRAP. NO : w\n~Well\nSTRT.%s 1000.0 : s\nSTOP.%s 1001.0 : s\nSTEP.%s 0.5 : s\nNULL. -999.25 : n\n"
             "~Curves\nDEPT.%s : depth\nGR.GAPI : gamma\n~ASCII\n1000.0 50.5\n1000.5 51.5\n1001.0 52.5\n") % (wu, wu, wu, cu)
+    if where == "no_well_section":
+        text = text[:text.index("~Well")] + text[text.index("~Curves"):]
+        ctx.count("depth_cases_without_well_section")
     mc = ["upper", "lower", "preserve"][(len(u) + len(where) + len(case["case"])) % 3]
     ctx.count("depth_cases_mnemonic_case_" + mc)
     detail = {"unit": u, "where": where, "text": text, "mnemonic_case": mc}
